@@ -6,7 +6,9 @@ from vlib.core import tok
 PROPERTY = "C06"
 LEVEL = "model_checking"
 LEVEL_TEXT = ("TLC explores Ownership.tla exhaustively: every program over 2-3 caller-created objects that gives them to a container, "
-              "takes them back, borrows them, copies the container, takes listings/arrays/iterators, empties, deletes and re-creates the "
+              "takes them back, borrows them, copies the container, takes listings (into no / a fresh / a copied-empty / an emptied / a done() / "
+              "a non-empty destination list), arrays and iterators, stores composite values (url, pair, list) and hands the map back the "
+              "value it returned or a component of it, empties, deletes and re-creates the "
               "container in ANY order (ledger invariants FreedIsFinal, ContFreesOnlyItsOwn, DeletedOwnsNothing).  Every transition is "
               "executed on the real list, vector and map classes (3 implementations each, ASan build): after every step every object the "
               "ledger says the program owns is read (use-after-free = violation), container contents are compared BY IDENTITY, and at the "
@@ -19,8 +21,8 @@ TECHNIQUE = "TLA+ ownership ledger + TLC exhaustive transition cover replayed on
 DESIGN_REF = "DESIGN.md section 6 C06"
 
 CLASSES = ["array", "linked_list", "dlinked_list"]
-NA = {"seq": ["OpSet", "OpMapGet", "OpMapRemove", "OpDelPair", "OpListing", "OpDelListing"],
-      "vec": ["OpSet", "OpMapGet", "OpMapRemove", "OpDelPair", "OpListing", "OpDelListing", "OpGiveRefused"],
+NA = {"seq": ["OpSetSame", "OpSetPart", "OpSet", "OpMapGet", "OpMapRemove", "OpDelPair", "OpListing", "OpDelListing"],
+      "vec": ["OpSetSame", "OpSetPart", "OpSet", "OpMapGet", "OpMapRemove", "OpDelPair", "OpListing", "OpDelListing", "OpGiveRefused"],
       "map": ["OpGive", "OpGiveRefused", "OpTakeBack", "OpTakeFirst", "OpLend", "OpToArray", "OpFreeArray"]}
 VALS = {2: "1,1", 3: "1,1,2"}      # two handles carry EQUAL values: identity vs equality
 
@@ -57,6 +59,12 @@ def run(ctx):
         for cls in CLASSES:
             objcheck.replay_cover(ctx, g, [tok(init(n))], exe, "%s/%s" % (kind, cls), [kind, cls, VALS[n]], keyfn, walks=walks,
                                   pairs=(20000 if ctx.tier == "quick" else 400000))
+            if kind == "map":
+                # the same programs with COMPOSITE values (the map's copy is a url / a pair / a list; set_part hands the map a
+                # component of the value it holds)
+                for vk in ("url", "pair", "list"):
+                    objcheck.replay_cover(ctx, g, [tok(init(n))], exe, "%s/%s/%s-values" % (kind, cls, vk), [kind, cls, VALS[n] + ":" + vk],
+                                          keyfn, walks=(walks[0] // 4, walks[1]), pairs=(5000 if ctx.tier == "quick" else 100000))
     # the small value classes (pairs, tokenizers, URLs, regexps): SmallObj.tla lifecycles with per-script heap balance
     from checks import c05
     c05.small_objects(ctx)
